@@ -45,7 +45,10 @@ def ledger(index, rep):
     def runit(it):
         it.classes = {"AnimalPopulation": cls}
         animal = Obj(None, {"current_population": cur, "target_population_head": T}, "animal")
-        res = it.call_function(fn, [animal, Path(("country",)), add, od, r], {}, None)
+        from .core import bind_named
+        a_, k_ = bind_named(fn, [("animal", animal), ("country_object", Path(("country",))), ("new_additive_animals_month", add),
+                                 ("new_other_animal_death", od), ("new_slaughter_rate", r)], skip_first=False, optional=("country_object",))
+        res = it.call_function(fn, a_, k_, None)
         return res, animal
 
     try:
@@ -167,6 +170,12 @@ def record(index, rep):
     fn, leaves = herd.function_trace(index, "AnimalPopulation.calculate_change_in_population")
     if len(fn.args.args) != 4:
         raise AnalysisError("calculate_change_in_population: signature changed")
+    from .core import pos_of
+    cap = index.func(ANIM, "AnimalPopulation.calculate_animal_population")
+    i_an, i_add, i_dead, i_rate = (pos_of(cap, n_, i_, 5, method=False) for n_, i_ in (
+        ("animal", 0), ("new_additive_animals_month", 2), ("new_other_animal_death", 3), ("new_slaughter_rate", 4)))
+    if None in (i_an, i_add, i_dead, i_rate):
+        raise AnalysisError(f"calculate_animal_population: parameters changed: {[a.arg for a in cap.args.args]}")
     ov = Over(rep, rule, loc(ANIM, fn))
     for dec, ev, env, it in leaves:
         pop = _ev(ev, "call", "calculate_animal_population")
@@ -180,14 +189,14 @@ def record(index, rep):
         if len(pop) == 1 and len(od) == 1:
             a = pop[0].args
             milk = herd.dec_true(dec, "animal_function", "milk")
-            deaths = it.to_rat(a[3]) if len(a) > 3 else None
+            deaths = it.to_rat(a[i_dead]) if len(a) > i_dead else None
             natural = it.to_rat(Path(("ret:calculate_other_deaths",)))
             retire = it.to_rat(Path(("P0", "retiring_milk_animals", "[]"), it.index_of(Rat.const(-1)))) if milk else Rat.const(0)
             okd = deaths is not None and deaths == natural + retire and "P0.other_death_causes_other_than_starving" in app and \
-                _is(app["P0.other_death_causes_other_than_starving"].args[0], "ret:calculate_other_deaths") and _is(a[2], "P2") and _is(a[0], "P0")
+                _is(app["P0.other_death_causes_other_than_starving"].args[0], "ret:calculate_other_deaths") and _is(a[i_add], "P2") and _is(a[i_an], "P0")
             ov.leaf("natural deaths recorded = natural deaths applied (+ retirements of a dairy herd)", okd, "the deaths subtracted from the herd are not recorded natural deaths + this month's recorded retirements (dairy herds only), or the "
                       "additive term is not the caller's births + transfers", dec, detail=str(deaths))
-            oks = len(sr) == 1 and _is(a[4], "ret:calculate_slaughter_rate") if len(a) > 4 else False
+            oks = len(sr) == 1 and _is(a[i_rate], "ret:calculate_slaughter_rate") if len(a) > i_rate else False
             ov.leaf("slaughter applied starts from the allocated rate", oks, "calculate_animal_population does not receive the rate calculate_slaughter_rate allocated", dec)
     if len(leaves) < 2:
         raise AnalysisError("calculate_change_in_population: expected dairy and non-dairy paths")
@@ -329,7 +338,11 @@ def slaughter(index, rep):
 
         it.call_hook = hook
         animal = Obj(None, {"baseline_slaughter": base, "slaughter": PList([last]), "animal_slaughter_hours": hph}, "animal")
-        return it.call_function(fn, [animal, Path(("country",)), Rat.atom(("b",)), Rat.atom(("d",)), rem], {}, None)
+        from .core import bind_named
+        a_, k_ = bind_named(fn, [("animal", animal), ("country_object", Path(("country",))), ("new_births_animals_month", Rat.atom(("b",))),
+                                 ("new_other_animal_death", Rat.atom(("d",))), ("remaining_hours_this_size", rem)], skip_first=False,
+                            optional=("country_object", "new_births_animals_month", "new_other_animal_death"))
+        return it.call_function(fn, a_, k_, None)
 
     try:
         envs = explore(runit, month_classes=False)
@@ -372,7 +385,9 @@ def slaughter(index, rep):
         ov.leaf("hours left = hours given - slaughter applied x hours/head", okh,
                 "the labour budget handed back is not the budget received minus slaughter applied x hours per head", dec,
                 detail=str(ret[0].args[0]) if ret else None)
-        okr = len(sr) == 1 and len(sr[0].args) >= 5 and _is(sr[0].args[4], "P3")
+        from .core import pos_of as _pos
+        i_rem = _pos(index.func(ANIM, "AnimalPopulation.calculate_slaughter_rate"), "remaining_hours_this_size", 4, 5, method=False)
+        okr = len(sr) == 1 and i_rem is not None and len(sr[0].args) > i_rem and _is(sr[0].args[i_rem], "P3")
         ov.leaf("rate computed from the class's remaining hours", okr,
                 "the slaughter rate is not computed from the remaining hours the caller handed in", dec)
     ov.done()
